@@ -398,6 +398,10 @@ def replay(check, path):
         return 0
     except Violation as v:
         print(f"  {v.signature}: {v.message}")
+        m = match_known(check, load_known(check.pid), v.signature, data["case"], v.message)
+        if m is not None:
+            print(f"KNOWN-FINDING: property={check.pid} {m['id']}: {m['what']}")
+            return 0
         print(f"VIOLATION property={check.pid} replay={path}")
         return 1
     print(f"replay {path}: property held")
